@@ -13,6 +13,8 @@ CASE_IMPORTS = ("From GV Require Import Prelude.Base Model.GridIndex Model.Desur
                 "From Coq Require Import QArith.")
 ALLOWED_AXIOMS: list = []
 REFUTED = [
+    "C18_collar_inplace_refuted (an accepted in-place write `well.collar[\"x\"] = v` changes the reported collar without resetting the "
+    "cached path; open finding collar-inplace-stale; proposed fixes/C18-collar-inplace-readonly.patch)",
     "C18_values_attached_refuted (two depths of one call collocate with the same existing vertex: the earlier value is overwritten; "
     "open finding depth-value-lost-collision; the from-to analogue interval-value-lost-collision is found by the oracle)",
     "C18_divide_old_code_refuted (pre-repair compute_deviation: a zero-length leg takes the first station's direction / reads "
@@ -62,7 +64,7 @@ LEVEL_TEXT = (
     "own depth yields that station's location (continuity); beyond the last station the last leg's deviation is continued. For all "
     "histories of add_data calls (any number of depth / from-to data sets per call): every vertex with a DEPTH value sits where "
     "desurvey puts that depth (C18_vertex_on_surveyed_path; in leg k at loc_k + (d - depth_k) * dev_k, C18_vertex_in_leg), every cell joins the "
-    "desurveyed positions of its FROM and TO values, all arrays stay aligned (through sort_depths); the cached path is never stale: after any history of collar / survey changes, queries and calls the path used is that of the current collar and surveys (C18_path_cache_coherent). Partial: values stay attached under a side "
+    "desurveyed positions of its FROM and TO values, all arrays stay aligned (through sort_depths); the cached path is never stale: after any history of API CALLS (collar / survey setters, queries, add_data; in-place writes into the arrays `collar` / `locations` hand out are not calls: collar[\"x\"] = v is modelled and refuted, writes into `locations` are out of scope) the path used is that of the current collar and surveys (C18_path_cache_coherent). Partial: values stay attached under a side "
     "condition (refuted without it: open finding); the direction map (trigonometry) is a parameter; np.divide(where=) without out= is "
     "repaired by a fix patch (the unrepaired code reads uninitialised memory; probed by the oracle with a poisoned output). The model is "
     "tied to the code on every run by evaluating it inside Coq on generated inputs."
@@ -253,7 +255,11 @@ def gen_hist(rng):
     data_seen = False
     for _ in range(rng.range(3, 7)):
         w = rng.below(100)
-        if w < 35:
+        if w < 8 and steps:
+            # not a setter call: a write into the array the `collar` getter hands out
+            steps.append({"op": "collar_x", "value": rng.range(-20, 20) * 0.5})
+            steps.append({"op": "query", "depths": [0.0, 1.0]})
+        elif w < 35:
             steps.append({"op": "query", "depths": [0.0] + gen_queries(rng, cur)[:4]})
         elif w < 55 and (not data_seen or rng.chance(25)):
             steps.append({"op": "collar", "value": gen_collar(rng)})
@@ -445,11 +451,17 @@ def _drive_hist(case, ws):
     import numpy as np
 
     w = _mk_hole(ws, case)
-    res = {"outs": []}
+    res = {"outs": [], "inplace_refused": []}
     vnames, cnames = [], []
     for k, st in enumerate(case["steps"]):
         try:
-            if st["op"] == "collar":
+            if st["op"] == "collar_x":
+                try:
+                    w.collar["x"] = float(st["value"])
+                    res["inplace_refused"].append(False)
+                except (ValueError, TypeError, IndexError):
+                    res["inplace_refused"].append(True)
+            elif st["op"] == "collar":
                 w.collar = [float(x) for x in st["value"]]
             elif st["op"] == "surveys":
                 w.surveys = np.array(st["value"], dtype=float)
@@ -558,8 +570,11 @@ def _hist_term(case, obs):
             return None
     ops, outs = [], []
     it = iter(obs["outs"])
+    refused = iter(obs.get("inplace_refused", []))
     for st in case["steps"]:
-        if st["op"] == "collar":
+        if st["op"] == "collar_x":
+            ops.append(f"DCollarX {'true' if next(refused) else 'false'} {cq(st['value'])}")
+        elif st["op"] == "collar":
             ops.append(f"DSetCollar {cv3(st['value'])}")
         elif st["op"] == "surveys":
             ops.append(f"DSetSurveys {_stations(st['value'])}")
@@ -801,7 +816,17 @@ def _oracle_hist(case, obs):
     calls, steps, paths = [], [], []
     data_seen = moved_after_data = False
     it = iter(obs["outs"])
+    refused = iter(obs.get("inplace_refused", []))
+    inplace_pending = False  # an accepted collar["x"] = v since the last setter call
     for k, st in enumerate(case["steps"]):
+        if st["op"] == "collar_x":
+            if not next(refused, True):
+                collar = [st["value"], collar[1], collar[2]]
+                inplace_pending = True
+                moved_after_data = True  # vertices of later calls land on the stale path: judged through the queries
+            continue
+        if st["op"] in ("collar", "surveys"):
+            inplace_pending = False
         if st["op"] == "collar":
             collar = st["value"]
             moved_after_data = moved_after_data or data_seen
@@ -814,7 +839,7 @@ def _oracle_hist(case, obs):
             for q, got in zip(st["depths"], out["positions"]):
                 if not _is_exact(got) or any(x is None for x in got) or tuple(Fraction(x) for x in got) != path.pos(q):
                     where = "collar-at-zero" if q == 0 else "query"
-                    fails.append({"key": f"stale-path-{where}", "what": f"step {k}: desurvey({q}) = {got}, the path of the current collar "
+                    fails.append({"key": "collar-inplace-stale" if inplace_pending else f"stale-path-{where}", "what": f"step {k}: desurvey({q}) = {got}, the path of the current collar "
                                   f"{collar} and surveys gives {tuple(map(str, path.pos(q)))}"})
                     return fails
         else:
